@@ -239,13 +239,18 @@ def main():
         sys.exit(3)
     # ---- hand-stated SMT-LIB lemmas (string theory; cvc5 back end): each must be unsat
     import tempfile
-    from pyvc.discharge import _run, CVC5
-    for name, text in P.get('smt_lemmas', []):
+    from pyvc.discharge import _run, CVC5, Z3
+    for item in P.get('smt_lemmas', []):
+        name, text = item[0], item[1]
+        use_z3 = len(item) > 2 and item[2] == 'z3'
         with tempfile.NamedTemporaryFile('w', suffix='.smt2', delete=False) as f:
             f.write(text)
-        v, dt, err = _run([CVC5, '--strings-exp', f'--tlimit={timeout * 1000}', f.name], timeout)
+        if use_z3:
+            v, dt, err = _run([Z3, f'-T:{timeout}', f.name], timeout)
+        else:
+            v, dt, err = _run([CVC5, '--strings-exp', f'--tlimit={timeout * 1000}', f.name], timeout)
         os.unlink(f.name)
-        res.append(dict(name=f'smt-lemma:{name}', fn='smt-lemmas', kind='lemma', line=0, verdict=v, solver='cvc5-1.0.3', time=dt, err=err,
+        res.append(dict(name=f'smt-lemma:{name}', fn='smt-lemmas', kind='lemma', line=0, verdict=v, solver='z3-5.1.0' if use_z3 else 'cvc5-1.0.3', time=dt, err=err,
                         status='proved' if v == 'unsat' else ('refuted' if v == 'sat' else 'undecided'), goal=text.splitlines()[-2][:300], nhyps=0))
     if P.get('smt_lemmas'):
         infos.append(dict(name='smt-lemmas', src_hash='-', contract_hash='-', lines=(0, 0), n=len(P['smt_lemmas'])))
